@@ -14,7 +14,7 @@
    theorems [add_mapped_trait_installs_shadow], [remove_mapped_trait_clears_derived_name],
    [remove_trait_restores_class_rule_for_derived_names] at the end. *)
 From Coq Require Import ZArith List Bool.
-From TV Require Import Common.Harness C13.Model C13.Law C13.Corr C13.Proofs C13.MapProofs.
+From TV Require Import Common.Harness C13.Model C13.Law C13.Corr C13.Proofs C13.MapProofs C13.ListenerProofs.
 Import ListNotations.
 Open Scope Z_scope.
 
@@ -502,4 +502,73 @@ Example mapped_history :
             OSet [97; 98] 2; OGet [97; 98; 95]; OSet [97; 98] 5; ORem [97; 98]; OGet [97; 98; 95]; OSet [97; 98; 95] 1]) =
   [Raise AttributeError; Done; Val 1; Val 11; Done; Val 12; Raise TraitError; Val 1;
    Raise AttributeError; Raise TraitError].
+Proof. vm_compute. reflexivity. Qed.
+
+
+(* ---- a trait_added listener that declares traits lazily (Model.step_l; seeded change C13-n2) ---- *)
+
+(* without a listener, for names it does not cover, and for names already known to the object or
+   cached in its class, step_l is step: all theorems above apply unchanged *)
+Theorem step_l_without_listener_is_step : forall pt s o, step_l [] pt s o = step pt s o.
+Proof. exact step_l_nil. Qed.
+Print Assumptions step_l_without_listener_is_step.
+
+Theorem listener_not_called_for_known_names :
+  forall lst pt s o,
+    amem (op_name o) (s_itd s) || amem (op_name o) (s_ctd s) = true -> step_l lst pt s o = step pt s o.
+Proof. exact step_l_known. Qed.
+Print Assumptions listener_not_called_for_known_names.
+
+(* The instance trait a trait_added listener installs on the first touch of an undeclared name
+   governs that very access: the first assignment IS the assignment under the listener's trait
+   (in the state with the resolved trait cached and the listener's trait installed) ... *)
+Theorem trait_added_listener_trait_governs_first_access :
+  forall lst pt s n lp, listener lst n = Some lp ->
+    assoc n (s_itd s) = None -> assoc n (s_ctd s) = None ->
+    forall v p s', prefix_trait pt s n true = inl (p, s') ->
+      step_l lst pt s (OSet n v) = setattr_m pt (after_listener n lp s') n lp v.
+Proof. exact first_set. Qed.
+Print Assumptions trait_added_listener_trait_governs_first_access.
+
+(* ... so an invalid first write is rejected by the typed trait the listener installs, *)
+Theorem first_write_of_invalid_value_is_rejected :
+  forall lst pt s n lp, listener lst n = Some lp ->
+    assoc n (s_itd s) = None -> assoc n (s_ctd s) = None ->
+    forall k d v p s', lp = PTyped k d -> prefix_trait pt s n true = inl (p, s') ->
+      v <> VUndef -> validate k v = None ->
+      o_out (snd (step_l lst pt s (OSet n v))) = Raise TraitError /\
+      assoc n (s_itd (fst (step_l lst pt s (OSet n v)))) = Some lp /\
+      assoc n (s_od (fst (step_l lst pt s (OSet n v)))) = assoc n (s_od s).
+Proof. exact first_write_invalid_rejected. Qed.
+Print Assumptions first_write_of_invalid_value_is_rejected.
+
+(* a Constant installed by the listener is not overwritten by the first write, *)
+Theorem first_write_to_listener_constant_is_rejected :
+  forall lst pt s n lp, listener lst n = Some lp ->
+    assoc n (s_itd s) = None -> assoc n (s_ctd s) = None ->
+    forall c v p s', lp = PConstant c -> prefix_trait pt s n true = inl (p, s') ->
+      o_out (snd (step_l lst pt s (OSet n v))) = Raise TraitError /\
+      assoc n (s_od (fst (step_l lst pt s (OSet n v)))) = assoc n (s_od s).
+Proof. exact first_write_to_constant_rejected. Qed.
+Print Assumptions first_write_to_listener_constant_is_rejected.
+
+(* and a first read yields the listener trait's default / constant *)
+Theorem first_read_yields_listener_default :
+  forall lst pt s n lp, listener lst n = Some lp ->
+    assoc n (s_itd s) = None -> assoc n (s_ctd s) = None ->
+    forall p s', assoc n (s_od s) = None -> prefix_trait pt s n false = inl (p, s') ->
+      (forall k d, lp = PTyped k d -> o_out (snd (step_l lst pt s (OGet n))) = Val d) /\
+      (forall c, lp = PConstant c -> o_out (snd (step_l lst pt s (OGet n))) = Val c).
+Proof. exact first_read_is_listener_default. Qed.
+Print Assumptions first_read_yields_listener_default.
+
+(* the demo of C13-n2 on the model: class LazySchema(HasTraits), 'n_*' -> Int(7), 'k_*' -> Constant(42) *)
+Example lazy_schema_demo :
+  let t := class_tables [mkClass [] [0%nat]] 3 in
+  let lst := [([110; 95], PTyped VInt 7); ([107; 95], PConstant 42)] in
+  map (fun p => o_out (snd p))
+      (run_l lst (snd t) (init_state (fst t))
+             [OSet [110; 95; 98] 101; OGet [110; 95; 98]; OSet [107; 95; 99] 1; OGet [107; 95; 99];
+              OGet [110; 95; 100]; OSet [119] 101; OGet [119]]) =
+  [Raise TraitError; Val 7; Raise TraitError; Val 42; Val 7; Done; Val 101].
 Proof. vm_compute. reflexivity. Qed.
